@@ -331,11 +331,32 @@ func tokenize(src string) []token {
 								if lab.k == tIdent && lab.s == "default" {
 									block = true
 								} else if lab.k == tIdent && !jsKeywords[lab.s] {
-									if len(toks) == 2 {
+									if len(toks) == 2 || lab.nl {
 										block = true
 									} else {
 										q := toks[len(toks)-3]
-										block = q.k == tPunct && (q.s == "{" || q.s == ";" || q.s == "}" || q.s == ")" || q.s == ":") || q.k == tIdent && (q.s == "else" || q.s == "do")
+										block = q.k == tPunct && (q.s == "{" || q.s == ";" || q.s == "}" || q.s == ")") || q.k == tIdent && (q.s == "else" || q.s == "do")
+										if q.k == tPunct && q.s == ":" {
+											// label chain or case clause, unless a conditional operator is open
+											block = true
+											depth := 0
+											for k := len(toks) - 3; k >= 0 && k > len(toks)-80; k-- {
+												u := toks[k]
+												if u.k == tPunct && (u.s == ")" || u.s == "]" || u.s == "}") {
+													depth++
+												} else if u.k == tPunct && (u.s == "(" || u.s == "[" || u.s == "{") {
+													if depth == 0 {
+														break
+													}
+													depth--
+												} else if depth == 0 && u.k == tPunct && u.s == "?" {
+													block = false
+													break
+												} else if depth == 0 && u.k == tPunct && u.s == ";" {
+													break
+												}
+											}
+										}
 									}
 								}
 								if !block {
